@@ -125,6 +125,13 @@ def build_cases():
         for algo in ("sha256", "SHA-256", "md5", "sha3_256", "blake2b", "sha999", None):
             for pid in ("k1", "unknown.pid"):
                 cases.append(("getchecksum", ("algo",) if algo else (), algo or "missing", state, pid))
+    # option values given as SEPARATE arguments ('-pid value'), and values that an argument parser may take for something
+    # else: a leading '@' (arguments-file prefix), a leading '-', '=' inside
+    for state in ("empty", "populated"):
+        for pid in ("@at.pid", "sep.pid", "a=b=c", "-dash.pid"):
+            cases.append(("storeobject", (), "valid", state, pid))
+            cases.append(("storemetadata", ("formatid",), "valid", state, pid))
+            cases.append(("retrieveobject", (), "valid", state, pid))
     for state in ("empty", "populated"):
         cases.append(("storeobject+store-options", ("dp", "wp"), "valid", state, "new.pid"))
         cases.append(("storemetadata+relative-path", (), "valid", state, "k1"))
@@ -246,6 +253,9 @@ def run_shard(cases, sub_seed, vidx=0):
                 shutil.copytree(templates[state], r)
             api = open_store(rb)
             argv = [ra, "-" + verb, f"-pid={pid}"]
+            separate = isinstance(pid, str) and pid in ("@at.pid", "sep.pid", "a=b=c")
+            if separate:
+                argv = [ra, "-" + verb, "-pid", pid]
             if verb == "storeobject":
                 from ..model import canon_algo
                 algo = v_algo_opt if variant != "bad_algo" else "sha999"
